@@ -47,323 +47,110 @@ Proof.
 Qed.
 
 (* ================================================================================================
-   1. _create_lumped_losses: the merged grid keeps exactly the first occurrence of every position *)
-
-(* first occurrences (w.r.t. ==) of the keys of l that are not in seen *)
-Definition seenb (s : list Q) (k : Q) : bool := existsb (Qeq_bool k) s.
-Fixpoint firsts {V : Type} (s : list Q) (l : list (Q * V)) : list (Q * V) :=
-  match l with
-  | [] => []
-  | (k, v) :: t => if seenb s k then firsts s t else (k, v) :: firsts (k :: s) t
-  end.
-(* the keys ks are pairwise distinct and none is in s *)
-Fixpoint fresh (s : list Q) (ks : list Q) : bool :=
-  match ks with
-  | [] => true
-  | k :: t => negb (seenb s k) && fresh (k :: s) t
-  end.
-Definition distinct_positions (ks : list Q) : bool := fresh [] ks.
-
+   1. _create_lumped_losses: the merged grid is sorted and carries every lumped loss (losses that share a
+      position accumulate on one grid point) *)
 Definition klt {V : Type} (a b : Q * V) : Prop := fst a < fst b.
 
-Lemma seenb_true : forall s k, seenb s k = true <-> exists x, In x s /\ k == x.
+Lemma ins_acc_hd : forall V op (k : Q) (v : V) l a, (forall b, In b l -> klt a b) -> fst a < k ->
+  forall b, In b (ins_acc op k v l) -> klt a b.
 Proof.
-  intros s k. unfold seenb. rewrite existsb_exists. split; intros [x [Hin Hx]]; exists x; split; trivial.
-  - apply Qeq_bool_iff; exact Hx.
-  - apply Qeq_bool_iff; exact Hx.
-Qed.
-
-Lemma seenb_ext : forall s1 s2, (forall k, seenb s1 k = seenb s2 k) ->
-  forall k x, seenb (x :: s1) k = seenb (x :: s2) k.
-Proof. intros s1 s2 H k x. unfold seenb in *. cbn [existsb]. rewrite (H k). reflexivity. Qed.
-
-Lemma firsts_ext : forall V (l : list (Q * V)) s1 s2, (forall k, seenb s1 k = seenb s2 k) ->
-  firsts s1 l = firsts s2 l.
-Proof.
-  induction l as [|[k v] t IH]; intros s1 s2 H; cbn [firsts]; trivial.
-  rewrite (H k). destruct (seenb s2 k) eqn:E.
-  - apply IH; exact H.
-  - f_equal. apply IH. intros k'. apply seenb_ext; exact H.
-Qed.
-
-Lemma seenb_perm : forall s1 s2, Permutation s1 s2 -> forall k, seenb s1 k = seenb s2 k.
-Proof.
-  intros s1 s2 HP k. apply eq_true_iff_eq. rewrite !seenb_true.
-  split; intros [x [Hin Hx]]; exists x; split; trivial.
-  - eapply Permutation_in; eauto.
-  - eapply Permutation_in; [apply Permutation_sym|]; eauto.
-Qed.
-
-Lemma seenb_compat : forall s k k', k == k' -> seenb s k = seenb s k'.
-Proof.
-  intros s k k' H. apply eq_true_iff_eq. rewrite !seenb_true.
-  split; intros [x [Hin Hx]]; exists x; split; trivial.
-  - rewrite <- H; exact Hx.
-  - rewrite H; exact Hx.
-Qed.
-
-(* sortedness invariant of the accumulator *)
-Lemma ins_first_hd : forall V (k : Q) (v : V) l a, (forall b, In b l -> klt a b) -> fst a < k ->
-  forall b, In b (ins_first k v l) -> klt a b.
-Proof.
-  induction l as [|[k' v'] t IH]; intros a Hall Hk b Hin; cbn [ins_first] in Hin.
+  induction l as [|[k' v'] t IH]; intros a Hall Hk b Hin; cbn [ins_acc] in Hin.
   - destruct Hin as [<-|[]]. exact Hk.
   - destruct (k ?= k') eqn:E.
-    + apply Hall; exact Hin.
+    + destruct Hin as [<-|Hin]; [|apply Hall; right; exact Hin].
+      specialize (Hall (k', v') (or_introl eq_refl)). exact Hall.
     + destruct Hin as [<-|Hin]; [exact Hk|apply Hall; exact Hin].
     + destruct Hin as [<-|Hin]; [apply Hall; left; reflexivity|].
       apply (IH a); trivial. intros b' Hb'. apply Hall. right; exact Hb'.
 Qed.
 
-Lemma ins_first_sorted : forall V (k : Q) (v : V) l, StronglySorted klt l -> StronglySorted klt (ins_first k v l).
+Lemma ins_acc_sorted : forall V op (k : Q) (v : V) l, StronglySorted klt l -> StronglySorted klt (ins_acc op k v l).
 Proof.
-  induction l as [|[k' v'] t IH]; intros HS; cbn [ins_first].
+  induction l as [|[k' v'] t IH]; intros HS; cbn [ins_acc].
   - constructor; [constructor|constructor].
   - inversion HS as [|a l' HSt Hall]; subst. destruct (k ?= k') eqn:E.
-    + exact HS.
+    + constructor; [exact HSt|]. rewrite Forall_forall in *. intros b Hb. exact (Hall b Hb).
     + apply Qlt_alt in E. constructor; [exact HS|].
       constructor; [exact E|]. rewrite Forall_forall in *. intros b Hb. unfold klt in *; cbn [fst] in *.
       eapply Qlt_trans; [exact E|]. apply (Hall b Hb).
     + apply Qgt_alt in E. constructor; [apply IH; exact HSt|].
       rewrite Forall_forall in *. intros b Hb.
-      eapply (ins_first_hd V k v t (k', v')); eauto.
+      eapply (ins_acc_hd V op k v t (k', v')); eauto.
 Qed.
 
-Lemma ins_first_seen : forall V (k : Q) (v : V) l, StronglySorted klt l -> seenb (map fst l) k = true ->
-  ins_first k v l = l.
-Proof.
-  induction l as [|[k' v'] t IH]; intros HS Hs.
-  - discriminate Hs.
-  - inversion HS as [|a l' HSt Hall]; subst. cbn [ins_first]. destruct (k ?= k') eqn:E; trivial.
-    + exfalso. apply Qlt_alt in E. apply seenb_true in Hs. destruct Hs as [x [Hin Hx]].
-      cbn [map fst] in Hin. destruct Hin as [<-|Hin].
-      * rewrite Hx in E. exact (Qlt_irrefl _ E).
-      * apply in_map_iff in Hin. destruct Hin as [b [<- Hb]]. rewrite Forall_forall in Hall.
-        specialize (Hall b Hb). unfold klt in Hall; cbn [fst] in Hall. rewrite Hx in E.
-        exact (Qlt_irrefl _ (Qlt_trans _ _ _ E Hall)).
-    + f_equal. apply IH; trivial. apply Qgt_alt in E. apply seenb_true in Hs. apply seenb_true.
-      destruct Hs as [x [Hin Hx]]. cbn [map fst] in Hin. destruct Hin as [<-|Hin].
-      * exfalso. rewrite Hx in E. exact (Qlt_irrefl _ E).
-      * exists x; split; trivial.
-Qed.
-
-Lemma ins_first_new : forall V (k : Q) (v : V) l, seenb (map fst l) k = false ->
-  Permutation (ins_first k v l) ((k, v) :: l).
-Proof.
-  induction l as [|[k' v'] t IH]; intros Hs; cbn [ins_first].
-  - apply Permutation_refl.
-  - destruct (k ?= k') eqn:E.
-    + exfalso. apply Qeq_alt in E. assert (seenb (map fst ((k', v') :: t)) k = true) as H.
-      { apply seenb_true. exists k'. split; [left; reflexivity|exact E]. }
-      rewrite H in Hs; discriminate.
-    + apply Permutation_refl.
-    + eapply Permutation_trans; [apply perm_skip; apply IH|apply perm_swap].
-      unfold seenb in *. cbn [map fst existsb] in Hs. apply orb_false_iff in Hs. tauto.
-Qed.
-
-Lemma merge_fold_perm : forall V (l : list (Q * V)) acc, StronglySorted klt acc ->
-  Permutation (fold_left (fun a kv => ins_first (fst kv) (snd kv) a) l acc) (acc ++ firsts (map fst acc) l).
-Proof.
-  induction l as [|[k v] t IH]; intros acc HS; cbn [fold_left firsts fst snd].
-  - rewrite app_nil_r. apply Permutation_refl.
-  - destruct (seenb (map fst acc) k) eqn:E.
-    + rewrite ins_first_seen; trivial. apply IH; exact HS.
-    + eapply Permutation_trans; [apply IH; apply ins_first_sorted; exact HS|].
-      pose proof (ins_first_new V k v acc E) as HP.
-      rewrite (firsts_ext V t (map fst (ins_first k v acc)) (k :: map fst acc)).
-      * eapply Permutation_trans; [apply Permutation_app_tail; exact HP|].
-        cbn [app]. apply Permutation_middle.
-      * apply seenb_perm. change (k :: map fst acc) with (map fst ((k, v) :: acc)).
-        apply Permutation_map; exact HP.
-Qed.
-
-(* the merged grid is a permutation of the first occurrences: nothing else is lost or invented *)
-Lemma merge_list_perm : forall V (l : list (Q * V)), Permutation (merge_list l) (firsts [] l).
-Proof. intros V l. unfold merge_list. apply (merge_fold_perm V l []). constructor. Qed.
-
-Lemma merge_list_sorted_gen : forall V (l : list (Q * V)) acc, StronglySorted klt acc ->
-  StronglySorted klt (fold_left (fun a kv => ins_first (fst kv) (snd kv) a) l acc).
+Lemma merge_list_sorted_gen : forall V op (l : list (Q * V)) acc, StronglySorted klt acc ->
+  StronglySorted klt (fold_left (fun a kv => ins_acc op (fst kv) (snd kv) a) l acc).
 Proof.
   induction l as [|[k v] t IH]; intros acc HS; cbn [fold_left]; trivial.
-  apply IH. apply ins_first_sorted; exact HS.
+  apply IH. apply ins_acc_sorted; exact HS.
 Qed.
-Lemma merge_list_sorted : forall V (l : list (Q * V)), StronglySorted klt (merge_list l).
+Lemma merge_list_sorted : forall V op (l : list (Q * V)), StronglySorted klt (merge_list op l).
 Proof. intros. apply merge_list_sorted_gen. constructor. Qed.
 
-(* with fresh keys nothing is dropped *)
-Lemma firsts_fresh : forall V (l : list (Q * V)) s, fresh s (map fst l) = true -> firsts s l = l.
+(* totals: inserting adds exactly the inserted value, whatever the positions are *)
+Lemma ins_acc_sum : forall k v l, qsum (map snd (ins_acc Qplus k v l)) == v + qsum (map snd l).
 Proof.
-  induction l as [|[k v] t IH]; intros s H; cbn [firsts]; trivial.
-  cbn [map fst fresh] in H. apply andb_true_iff in H. destruct H as [H1 H2].
-  apply negb_true_iff in H1. rewrite H1. f_equal. apply IH; exact H2.
+  induction l as [|[k' v'] t IH]; cbn [ins_acc].
+  - cbn [map snd]. reflexivity.
+  - destruct (k ?= k'); cbn [map snd]; rewrite ?qsum_cons.
+    + ring.
+    + ring.
+    + rewrite IH. ring.
+Qed.
+Lemma ins_acc_prod : forall k v l, qprod (map snd (ins_acc Qmult k v l)) == v * qprod (map snd l).
+Proof.
+  induction l as [|[k' v'] t IH]; cbn [ins_acc].
+  - cbn [map snd]. reflexivity.
+  - destruct (k ?= k'); cbn [map snd]; rewrite ?qprod_cons.
+    + ring.
+    + ring.
+    + rewrite IH. ring.
 Qed.
 
-Lemma firsts_app : forall V (l1 l2 : list (Q * V)) s,
-  firsts s (l1 ++ l2) = firsts s l1 ++ firsts (rev (map fst (firsts s l1)) ++ s) l2.
+Lemma merge_fold_sum : forall (l acc : list (Q * Q)),
+  qsum (map snd (fold_left (fun a kv => ins_acc Qplus (fst kv) (snd kv) a) l acc)) == qsum (map snd acc) + qsum (map snd l).
 Proof.
-  induction l1 as [|[k v] t IH]; intros l2 s; cbn [firsts app]; trivial.
-  destruct (seenb s k) eqn:E.
-  - apply IH.
-  - cbn [app map fst rev]. f_equal. rewrite IH. f_equal. rewrite <- app_assoc. reflexivity.
+  induction l as [|[k v] t IH]; intros acc; cbn [fold_left map snd fst].
+  - rewrite qsum_nil. ring.
+  - rewrite IH, ins_acc_sum, qsum_cons. ring.
+Qed.
+Lemma merge_fold_prod : forall (l acc : list (Q * Q)),
+  qprod (map snd (fold_left (fun a kv => ins_acc Qmult (fst kv) (snd kv) a) l acc)) == qprod (map snd acc) * qprod (map snd l).
+Proof.
+  induction l as [|[k v] t IH]; intros acc; cbn [fold_left map snd fst].
+  - rewrite qprod_nil. ring.
+  - rewrite IH, ins_acc_prod, qprod_cons. ring.
 Qed.
 
-Lemma firsts_const : forall V (one : V) (z : list Q) s,
-  Forall (fun kv => snd kv = one) (firsts s (map (fun x => (x, one)) z)).
-Proof.
-  induction z as [|x t IH]; intros s; cbn [map firsts]; [constructor|].
-  destruct (seenb s x); [apply IH|constructor; [reflexivity|apply IH]].
-Qed.
+Lemma qsum_const0 : forall z : list Q, qsum (map snd (map (fun x : Q => (x, 0)) z)) == 0.
+Proof. induction z as [|x t IH]; cbn [map snd]; [reflexivity|]. rewrite qsum_cons, IH. ring. Qed.
+Lemma qprod_const1 : forall z : list Q, qprod (map snd (map (fun x : Q => (x, 1)) z)) == 1.
+Proof. induction z as [|x t IH]; cbn [map snd]; [reflexivity|]. rewrite qprod_cons, IH. ring. Qed.
 
-Lemma qsum_zeros : forall l : list (Q * Q), Forall (fun kv => snd kv = 0) l -> qsum (map snd l) == 0.
+(* the merged grid carries the total of all lumped losses, for every list of positions *)
+Lemma lumped_merge_db : forall zl z, qsum (map snd (merge_grid Qplus 0 zl z)) == qsum (map snd zl).
 Proof.
-  induction 1 as [|x l Hx HF IH]; cbn [map]; [reflexivity|]. rewrite qsum_cons, Hx, IH. ring.
+  intros zl z. unfold merge_grid, merge_list. rewrite merge_fold_sum, map_app, qsum_app, qsum_const0.
+  cbn [map]. rewrite qsum_nil. ring.
 Qed.
-Lemma qprod_ones : forall l : list (Q * Q), Forall (fun kv => snd kv = 1) l -> qprod (map snd l) == 1.
+Lemma lumped_merge_lin : forall zl z, qprod (map snd (merge_grid Qmult 1 zl z)) == qprod (map snd zl).
 Proof.
-  induction 1 as [|x l Hx HF IH]; cbn [map]; [reflexivity|]. rewrite qprod_cons, Hx, IH. ring.
-Qed.
-
-(* total of the merged grid, dB domain (neutral 0) and linear domain (neutral 1) *)
-Lemma merge_total_db : forall zl z,
-  qsum (map snd (merge_grid 0 zl z)) == qsum (map snd (firsts [] zl)).
-Proof.
-  intros zl z. unfold merge_grid.
-  rewrite (qsum_perm _ _ (Permutation_map snd (merge_list_perm Q _))).
-  rewrite firsts_app, map_app, qsum_app. rewrite (qsum_zeros _ (firsts_const Q 0 z _)). ring.
-Qed.
-Lemma merge_total_lin : forall zl z,
-  qprod (map snd (merge_grid 1 zl z)) == qprod (map snd (firsts [] zl)).
-Proof.
-  intros zl z. unfold merge_grid.
-  rewrite (qprod_perm _ _ (Permutation_map snd (merge_list_perm Q _))).
-  rewrite firsts_app, map_app, qprod_app. rewrite (qprod_ones _ (firsts_const Q 1 z _)). ring.
-Qed.
-
-Lemma lumped_merge_db : forall zl z, distinct_positions (map fst zl) = true ->
-  qsum (map snd (merge_grid 0 zl z)) == qsum (map snd zl).
-Proof. intros zl z H. rewrite merge_total_db, firsts_fresh; [reflexivity|exact H]. Qed.
-Lemma lumped_merge_lin : forall zl z, distinct_positions (map fst zl) = true ->
-  qprod (map snd (merge_grid 1 zl z)) == qprod (map snd zl).
-Proof. intros zl z H. rewrite merge_total_lin, firsts_fresh; [reflexivity|exact H]. Qed.
-
-(* converse for strictly positive losses: a repeated position loses a strictly positive amount *)
-Lemma firsts_le : forall (l : list (Q * Q)) s, Forall (fun kv => 0 < snd kv) l ->
-  qsum (map snd (firsts s l)) <= qsum (map snd l).
-Proof.
-  induction l as [|[k v] t IH]; intros s HF; cbn [firsts map]; [apply Qle_refl|].
-  inversion HF as [|a l' Hv HFt]; subst. cbn [snd] in Hv. specialize (IH s HFt) as IHs.
-  destruct (seenb s k).
-  - rewrite qsum_cons. cbn [snd]. lra.
-  - cbn [map snd]. rewrite !qsum_cons. specialize (IH (k :: s) HFt). lra.
-Qed.
-Lemma firsts_lt : forall (l : list (Q * Q)) s, Forall (fun kv => 0 < snd kv) l ->
-  fresh s (map fst l) = false -> qsum (map snd (firsts s l)) < qsum (map snd l).
-Proof.
-  induction l as [|[k v] t IH]; intros s HF H; cbn [firsts map]; [discriminate H|].
-  inversion HF as [|a l' Hv HFt]; subst. cbn [snd] in Hv.
-  cbn [map fst fresh] in H. destruct (seenb s k) eqn:E.
-  - rewrite qsum_cons. cbn [snd]. pose proof (firsts_le t s HFt). lra.
-  - cbn [negb andb] in H. cbn [map snd]. rewrite !qsum_cons. specialize (IH (k :: s) HFt H). lra.
-Qed.
-
-Lemma lumped_merge_iff : forall zl z, Forall (fun kv => 0 < snd kv) zl ->
-  (qsum (map snd (merge_grid 0 zl z)) == qsum (map snd zl) <-> distinct_positions (map fst zl) = true).
-Proof.
-  intros zl z HF. split.
-  - intros H. destruct (distinct_positions (map fst zl)) eqn:E; trivial. exfalso.
-    rewrite merge_total_db in H. pose proof (firsts_lt zl [] HF E) as Hlt. rewrite H in Hlt.
-    exact (Qlt_irrefl _ Hlt).
-  - apply lumped_merge_db.
-Qed.
-
-(* distinct_positions is pairwise distinctness up to == *)
-Lemma fresh_spec : forall ks s, fresh s ks = true <->
-  (NoDupA Qeq ks /\ forall k, InA Qeq k ks -> seenb s k = false).
-Proof.
-  induction ks as [|k t IH]; intros s; cbn [fresh].
-  - split; [intros _; split; [constructor|intros k H; inversion H]|trivial].
-  - rewrite andb_true_iff, negb_true_iff, IH. split.
-    + intros [H1 [H2 H3]]. split.
-      * constructor; trivial. intros Hin. specialize (H3 k Hin). unfold seenb in H3. cbn [existsb] in H3.
-        apply orb_false_iff in H3. destruct H3 as [H3 _].
-        assert (Qeq_bool k k = true) by (apply Qeq_bool_iff; reflexivity). congruence.
-      * intros k' Hk'. inversion Hk' as [y l Heq|y l Hin]; subst.
-        -- rewrite (seenb_compat s k' k Heq). exact H1.
-        -- specialize (H3 k' Hin). unfold seenb in *. cbn [existsb] in H3. apply orb_false_iff in H3. tauto.
-    + intros [HN Hs]. inversion HN as [|x l Hnin HNt]; subst. split; [|split]; trivial.
-      * apply Hs. left. reflexivity.
-      * intros k' Hk'. unfold seenb. cbn [existsb]. apply orb_false_iff. split.
-        -- destruct (Qeq_bool k' k) eqn:E; trivial. exfalso. apply Qeq_bool_iff in E. apply Hnin.
-           rewrite <- E. exact Hk'.
-        -- apply (Hs k'). right. exact Hk'.
-Qed.
-Lemma distinct_positions_spec : forall ks, distinct_positions ks = true <-> NoDupA Qeq ks.
-Proof.
-  intros ks. unfold distinct_positions. rewrite fresh_spec. split; [tauto|].
-  intros H. split; trivial.
+  intros zl z. unfold merge_grid, merge_list. rewrite merge_fold_prod, map_app, qprod_app, qprod_const1.
+  cbn [map]. rewrite qprod_nil. ring.
 Qed.
 
 (* ================================================================================================
    2. the loss budget of a fibre span (Raman off) *)
-Lemma seenb_scale : forall s k, seenb (map (fun z => z * 1000) s) (k * 1000) = seenb s k.
-Proof.
-  intros s k. apply eq_true_iff_eq. rewrite !seenb_true. split.
-  - intros [x [Hin Hx]]. apply in_map_iff in Hin. destruct Hin as [y [<- Hy]]. exists y. split; trivial.
-    apply Qmult_inj_r in Hx; trivial. discriminate.
-  - intros [x [Hin Hx]]. exists (x * 1000). split; [apply (in_map (fun z => z * 1000)); exact Hin|rewrite Hx; reflexivity].
-Qed.
-Lemma fresh_scale : forall ks s, fresh (map (fun z => z * 1000) s) (map (fun z => z * 1000) ks) = fresh s ks.
-Proof.
-  induction ks as [|k t IH]; intros s; cbn [map fresh]; trivial.
-  rewrite seenb_scale. f_equal. apply (IH (k :: s)).
-Qed.
-Lemma lumped_m_fst : forall fib, map fst (lumped_m fib) = map (fun z => z * 1000) (map fst (f_lumped fib)).
-Proof. intros fib. unfold lumped_m. rewrite !map_map. reflexivity. Qed.
 Lemma lumped_m_snd : forall fib, map snd (lumped_m fib) = map snd (f_lumped fib).
 Proof. intros fib. unfold lumped_m. rewrite !map_map. reflexivity. Qed.
-Lemma lumped_m_distinct : forall fib,
-  distinct_positions (map fst (lumped_m fib)) = distinct_positions (map fst (f_lumped fib)).
-Proof. intros fib. rewrite lumped_m_fst. unfold distinct_positions. apply (fresh_scale _ []). Qed.
-
-(* what the span does in every case: duplicated positions count once (the first one) *)
-Lemma fiber_power_general : forall fib f p a,
-  lumped_in_range fib = true -> loss_coef_at fib f = Ok a ->
-  exists out, fiber_power_out fib f p = Ok out /\
-    out == p - (f_att_in fib + f_con_in fib + len_m fib * a
-                + qsum (map snd (firsts [] (lumped_m fib))) + f_con_out fib).
-Proof.
-  intros fib f p a Hr Ha. unfold fiber_power_out, fiber_check. rewrite Hr. cbn [bind]. rewrite Ha. cbn [bind].
-  eexists. split; [reflexivity|]. unfold attenuation_db. rewrite merge_total_db. ring.
-Qed.
 
 Lemma fiber_budget : forall fib f p a,
   lumped_in_range fib = true ->
-  distinct_positions (map fst (f_lumped fib)) = true ->
   loss_coef_at fib f = Ok a ->
   exists out, fiber_power_out fib f p = Ok out /\ out == p - loss_budget fib a.
 Proof.
-  intros fib f p a Hr Hd Ha. destruct (fiber_power_general fib f p a Hr Ha) as [out [H1 H2]].
-  exists out. split; trivial. rewrite H2. unfold loss_budget.
-  rewrite firsts_fresh by (rewrite lumped_m_distinct; exact Hd). rewrite lumped_m_snd. ring.
-Qed.
-
-(* positive losses: the budget is met exactly when the positions are pairwise distinct *)
-Lemma fiber_budget_iff : forall fib f p a out,
-  lumped_in_range fib = true -> Forall (fun zl => 0 < snd zl) (f_lumped fib) ->
-  loss_coef_at fib f = Ok a -> fiber_power_out fib f p = Ok out ->
-  (out == p - loss_budget fib a <-> distinct_positions (map fst (f_lumped fib)) = true).
-Proof.
-  intros fib f p a out Hr Hpos Ha Hout. split.
-  - intros Hb. destruct (fiber_power_general fib f p a Hr Ha) as [out' [H1 H2]].
-    rewrite Hout in H1. injection H1 as <-. rewrite Hb in H2. unfold loss_budget in H2.
-    destruct (distinct_positions (map fst (f_lumped fib))) eqn:E; trivial. exfalso.
-    rewrite <- lumped_m_distinct in E.
-    assert (Forall (fun kv => 0 < snd kv) (lumped_m fib)) as HF.
-    { unfold lumped_m. rewrite Forall_forall in *. intros x Hx. apply in_map_iff in Hx.
-      destruct Hx as [y [<- Hy]]. cbn [snd]. apply Hpos; exact Hy. }
-    pose proof (firsts_lt (lumped_m fib) [] HF E) as Hlt. rewrite lumped_m_snd in Hlt. lra.
-  - intros Hd. destruct (fiber_budget fib f p a Hr Hd Ha) as [out' [H1 H2]].
-    rewrite Hout in H1. injection H1 as <-. exact H2.
+  intros fib f p a Hr Ha. unfold fiber_power_out, fiber_check. rewrite Hr. cbn [bind]. rewrite Ha. cbn [bind].
+  eexists. split; [reflexivity|]. unfold attenuation_db, loss_budget. rewrite lumped_merge_db, lumped_m_snd. ring.
 Qed.
 
 (* Fiber.loss (the figure the design uses) is the budget at the reference frequency *)
@@ -670,29 +457,6 @@ Proof.
       cbn [map snd]. rewrite qprod_cons. ring.
 Qed.
 
-Lemma firsts_incl : forall V (l : list (Q * V)) s x, In x (firsts s l) -> In x l.
-Proof.
-  induction l as [|[k v] t IH]; intros s x H; cbn [firsts] in H; [exact H|].
-  destruct (seenb s k).
-  - right. apply (IH s); exact H.
-  - destruct H as [<-|H]; [left; reflexivity|right; apply (IH (k :: s)); exact H].
-Qed.
-
-Lemma firsts_covers : forall V (l : list (Q * V)) s kv, In kv l -> seenb s (fst kv) = false ->
-  exists kv', In kv' (firsts s l) /\ fst kv' == fst kv.
-Proof.
-  induction l as [|[k v] t IH]; intros s kv Hin Hs; [destruct Hin|]. cbn [firsts].
-  destruct (seenb s k) eqn:E.
-  - destruct Hin as [<-|Hin]; [cbn [fst] in Hs; congruence|]. apply IH; assumption.
-  - destruct Hin as [<-|Hin].
-    + exists (k, v). split; [left; reflexivity|reflexivity].
-    + destruct (Qeq_bool (fst kv) k) eqn:E2.
-      * exists (k, v). split; [left; reflexivity|]. cbn [fst]. apply Qeq_bool_iff in E2. symmetry; exact E2.
-      * destruct (IH (k :: s) kv Hin) as [kv' [H1 H2]].
-        -- unfold seenb in *. cbn [existsb]. rewrite E2, Hs. reflexivity.
-        -- exists kv'. split; [right; exact H1|exact H2].
-Qed.
-
 Lemma sorted_last : forall (l : list (Q * Q)) x, StronglySorted klt l -> In x l ->
   (forall y, In y l -> fst y <= fst x) -> exists l', l = l' ++ [x].
 Proof.
@@ -707,36 +471,90 @@ Proof.
       * exists (a :: l'). rewrite Hl'. reflexivity.
 Qed.
 
-(* on the solver grid (last point = fibre end, all lumped positions before it) the Euler scheme
-   applies every lumped loss exactly once, provided the positions are pairwise distinct *)
-Lemma euler_lumped_once : forall zl z' L,
-  distinct_positions (map fst zl) = true ->
-  (forall kv, In kv zl -> fst kv < L) -> (forall x, In x z' -> x <= L) ->
-  qprod (map snd (removelast (merge_grid 1 zl (z' ++ [L])))) == qprod (map snd zl).
+(* invariants of the accumulator while the lumped losses (positions < L) and then grid points (<= L,
+   value 1) are inserted: keys stay <= L, an entry at the fibre end has value 1, a key once present stays *)
+Definition end_ok (L : Q) (acc : list (Q * Q)) : Prop :=
+  forall x, In x acc -> fst x <= L /\ (L <= fst x -> snd x == 1).
+Definition has_key (k : Q) (acc : list (Q * Q)) : Prop := exists x, In x acc /\ fst x == k.
+
+Lemma ins_acc_end_ok : forall L k v acc, end_ok L acc -> k <= L -> (k < L \/ v == 1) ->
+  end_ok L (ins_acc Qmult k v acc).
 Proof.
-  intros zl z' L Hd Hzl Hz.
-  pose proof (lumped_merge_lin zl (z' ++ [L]) Hd) as Htot.
-  set (M := merge_grid 1 zl (z' ++ [L])) in *.
-  set (G := map (fun x : Q => (x, 1)) (z' ++ [L])).
-  assert (Permutation M (firsts [] (zl ++ G))) as HP by (apply merge_list_perm).
-  assert (forall y, In y M -> In y (zl ++ G)) as Hsub.
-  { intros y Hy. eapply firsts_incl. eapply Permutation_in; eauto. }
-  destruct (firsts_covers Q (zl ++ G) [] (L, 1)) as [kv [Hkv1 Hkv2]].
-  { apply in_or_app. right. unfold G. apply (in_map (fun x : Q => (x, 1))). apply in_or_app. right. left. reflexivity. }
-  { reflexivity. }
-  cbn [fst] in Hkv2.
-  assert (In kv M) as HkvM by (eapply Permutation_in; [apply Permutation_sym; exact HP|exact Hkv1]).
-  assert (snd kv = 1) as Hv.
-  { specialize (Hsub kv HkvM). apply in_app_or in Hsub. destruct Hsub as [Hin|Hin].
-    - exfalso. specialize (Hzl kv Hin). lra.
-    - unfold G in Hin. apply in_map_iff in Hin. destruct Hin as [x [<- _]]. reflexivity. }
-  destruct (sorted_last M kv) as [M' HM'].
+  intros L k v. induction acc as [|[k' v'] t IH]; intros Hok Hk Hv; cbn [ins_acc].
+  - intros x [<-|[]]. cbn [fst snd]. split; [exact Hk|]. intros HL. destruct Hv as [Hv|Hv]; [lra|exact Hv].
+  - assert (end_ok L t) as Hokt by (intros x Hx; apply Hok; right; exact Hx).
+    destruct (Hok (k', v') (or_introl eq_refl)) as [Hk' Hv']. cbn [fst snd] in Hk', Hv'.
+    destruct (k ?= k') eqn:E.
+    + apply Qeq_alt in E. intros x [<-|Hx]; [|apply Hok; right; exact Hx]. cbn [fst snd]. split; [exact Hk'|].
+      intros HL. rewrite (Hv' HL). destruct Hv as [Hv|Hv]; [lra|rewrite Hv; ring].
+    + intros x [<-|Hx]; [|apply Hok; exact Hx]. cbn [fst snd]. split; [exact Hk|].
+      intros HL. destruct Hv as [Hv|Hv]; [lra|exact Hv].
+    + intros x [<-|Hx]; [cbn [fst snd]; split; assumption|]. apply (IH Hokt Hk Hv x Hx).
+Qed.
+
+Lemma ins_acc_has_new : forall k v acc, has_key k (ins_acc Qmult k v acc).
+Proof.
+  intros k v. induction acc as [|[k' v'] t IH]; cbn [ins_acc].
+  - exists (k, v). split; [left; reflexivity|reflexivity].
+  - destruct (k ?= k') eqn:E.
+    + apply Qeq_alt in E. exists (k', v' * v). split; [left; reflexivity|]. cbn [fst]. symmetry; exact E.
+    + exists (k, v). split; [left; reflexivity|reflexivity].
+    + destruct IH as [x [Hx Hk]]. exists x. split; [right; exact Hx|exact Hk].
+Qed.
+
+Lemma ins_acc_has_old : forall k0 k v acc, has_key k0 acc -> has_key k0 (ins_acc Qmult k v acc).
+Proof.
+  intros k0 k v. induction acc as [|[k' v'] t IH]; intros [x [Hx Hk]]; [destruct Hx|]. cbn [ins_acc].
+  destruct (k ?= k') eqn:E.
+  - destruct Hx as [<-|Hx].
+    + exists (k', v' * v). split; [left; reflexivity|exact Hk].
+    + exists x. split; [right; exact Hx|exact Hk].
+  - exists x. split; [right; exact Hx|exact Hk].
+  - destruct Hx as [<-|Hx].
+    + exists (k', v'). split; [left; reflexivity|exact Hk].
+    + destruct (IH (ex_intro _ x (conj Hx Hk))) as [y [Hy Hky]]. exists y. split; [right; exact Hy|exact Hky].
+Qed.
+
+Lemma merge_fold_inv : forall L (l acc : list (Q * Q)), end_ok L acc ->
+  (forall kv, In kv l -> fst kv <= L /\ (fst kv < L \/ snd kv == 1)) ->
+  end_ok L (fold_left (fun a kv => ins_acc Qmult (fst kv) (snd kv) a) l acc).
+Proof.
+  intros L. induction l as [|[k v] t IH]; intros acc Hok Hl; cbn [fold_left]; [exact Hok|].
+  apply IH.
+  - destruct (Hl (k, v) (or_introl eq_refl)) as [H1 H2]. apply ins_acc_end_ok; assumption.
+  - intros kv Hkv. apply Hl. right; exact Hkv.
+Qed.
+
+Lemma merge_fold_has : forall k0 (l acc : list (Q * Q)), has_key k0 acc ->
+  has_key k0 (fold_left (fun a kv => ins_acc Qmult (fst kv) (snd kv) a) l acc).
+Proof.
+  intros k0. induction l as [|[k v] t IH]; intros acc H; cbn [fold_left]; [exact H|].
+  apply IH. apply ins_acc_has_old; exact H.
+Qed.
+
+(* on the solver grid (last point = fibre end, all lumped positions before it) the Euler scheme applies
+   every lumped loss exactly once — also when several of them share a position *)
+Lemma euler_lumped_once : forall zl z' L,
+  (forall kv, In kv zl -> fst kv < L) -> (forall x, In x z' -> x <= L) ->
+  qprod (map snd (removelast (merge_grid Qmult 1 zl (z' ++ [L])))) == qprod (map snd zl).
+Proof.
+  intros zl z' L Hzl Hz.
+  pose proof (lumped_merge_lin zl (z' ++ [L])) as Htot.
+  set (M := merge_grid Qmult 1 zl (z' ++ [L])) in *.
+  assert (end_ok L M) as Hok.
+  { unfold M, merge_grid, merge_list. apply merge_fold_inv; [intros x []|].
+    intros kv Hkv. apply in_app_or in Hkv. destruct Hkv as [Hkv|Hkv].
+    - specialize (Hzl kv Hkv). split; [lra|left; exact Hzl].
+    - apply in_map_iff in Hkv. destruct Hkv as [x [<- Hx]]. cbn [fst snd]. split; [|right; reflexivity].
+      apply in_app_or in Hx. destruct Hx as [Hx|[<-|[]]]; [apply Hz; exact Hx|lra]. }
+  assert (has_key L M) as [x [HxM HxL]].
+  { unfold M, merge_grid, merge_list. rewrite map_app, app_assoc. cbn [map app]. rewrite fold_left_app.
+    cbn [fold_left fst snd]. apply ins_acc_has_new. }
+  destruct (Hok x HxM) as [_ Hx1]. assert (snd x == 1) as Hv by (apply Hx1; lra).
+  destruct (sorted_last M x) as [M' HM'].
   - apply merge_list_sorted.
-  - exact HkvM.
-  - intros y Hy. specialize (Hsub y Hy). apply in_app_or in Hsub. destruct Hsub as [Hin|Hin].
-    + specialize (Hzl y Hin). lra.
-    + unfold G in Hin. apply in_map_iff in Hin. destruct Hin as [x [<- Hx]]. cbn [fst].
-      apply in_app_or in Hx. destruct Hx as [Hx|[<-|[]]]; [specialize (Hz x Hx)|]; lra.
+  - exact HxM.
+  - intros y Hy. destruct (Hok y Hy) as [Hy1 _]. lra.
   - rewrite HM' in *. rewrite removelast_last. rewrite map_app, qprod_app in Htot.
     cbn [map] in Htot. rewrite qprod_cons, qprod_nil, Hv in Htot. rewrite <- Htot. ring.
 Qed.
@@ -780,29 +598,10 @@ Proof.
 Qed.
 
 (* ================================================================================================
-   6. refutations: what the faithful model does when two lumped losses share a position (F10) *)
+   6. regression witness of the repaired defect F10: two lumped losses at one position are both applied *)
 Definition wit_fiber : fiber :=
   mkFiber 80 true 1 (1 # 2) (7 # 10) (Scalar (1 # 5)) [(10, 3 # 2); (10, 2)] 193414489032258
           (DispScalar (167 # 10000000) None) (1265 # 1000000000000000000) (1468 # 1000).
-
-Lemma lumped_dup_refuted : exists zl z,
-  Forall (fun kv => 0 < snd kv) zl /\ ~ qsum (map snd (merge_grid 0 zl z)) == qsum (map snd zl).
-Proof.
-  exists [(10000, 3 # 2); (10000, 2)], [0; 80000]. split.
-  - repeat constructor.
-  - intros H. vm_compute in H. discriminate H.
-Qed.
-
-Lemma fiber_budget_dup_refuted : exists fib f p a out,
-  lumped_in_range fib = true /\ Forall (fun zl => 0 < snd zl) (f_lumped fib) /\
-  loss_coef_at fib f = Ok a /\ fiber_power_out fib f p = Ok out /\
-  ~ out == p - loss_budget fib a /\ out == p - loss_budget fib a + 2.
-Proof.
-  exists wit_fiber, 193100000000000, 0, ((1 # 5) / 1000). eexists. split; [reflexivity|]. split; [repeat constructor|].
-  split; [reflexivity|]. split; [vm_compute; reflexivity|]. split.
-  - intros H. vm_compute in H. discriminate H.
-  - vm_compute. reflexivity.
-Qed.
 
 (* ================================================================================================
    7. the runner's sharing of beta3 between the channels of one fibre does not change any result *)
@@ -835,4 +634,96 @@ Proof.
   rewrite (mapM_combine_map _ _ _ (fun e sh => elem_contrib_with pi e sh f) (elem_shared pi) els).
   rewrite (mapM_ext _ _ _ (fun e => elem_contrib pi e f) els); [reflexivity|].
   intros e. apply elem_contrib_with_sound.
+Qed.
+
+(* ================================================================================================
+   8. pi cancels in the chromatic dispersion of a span also for a dispersion table
+      (beta3 from the least-squares parabola through beta2 at the table frequencies) *)
+Lemma Ok_inj : forall A (a b : A), @Ok A a = Ok b -> a = b.
+Proof. intros A a b H. injection H. auto. Qed.
+
+Lemma qsum_red_correct : forall l, qsum_red l == qsum l.
+Proof.
+  induction l as [|x t IH]; [reflexivity|]. cbn [qsum_red fold_right]. fold (qsum_red t).
+  rewrite Qred_correct, IH, qsum_cons. reflexivity.
+Qed.
+
+Lemma det3_plain : forall a b c d e f g h i,
+  det3 a b c d e f g h i == a * (e * i - f * h) - b * (d * i - f * g) + c * (d * h - e * g).
+Proof. intros. unfold det3. rewrite !Qred_correct. reflexivity. Qed.
+
+(* scaled equality of two value lists: v * k == v' * k' pointwise *)
+Definition scaled (k k' : Q) (v v' : Q) : Prop := v * k == v' * k'.
+
+Lemma pmom_scaled : forall n xs ys ys' k k', Forall2 (scaled k k') ys ys' ->
+  pmom n xs ys * k == pmom n xs ys' * k'.
+Proof.
+  intros n xs ys ys' k k' HF. unfold pmom. rewrite !qsum_red_correct. revert xs.
+  induction HF as [|y y' l l' Hy HF IH]; intros xs.
+  - destruct xs; cbn [combine map]; rewrite !qsum_nil; ring.
+  - destruct xs as [|x xs]; cbn [combine map fst snd]; [rewrite !qsum_nil; ring|].
+    rewrite !qsum_cons. unfold scaled in Hy.
+    transitivity (Qpower (Qred x) (Z.of_nat n) * (y * k) + qsum (map (fun xy => Qpower (Qred (fst xy)) (Z.of_nat n) * snd xy) (combine xs l)) * k); [ring|].
+    rewrite Hy, (IH xs). ring.
+Qed.
+
+Lemma polyfit_scaled : forall xs ys ys' k k' b, Forall2 (scaled k k') ys ys' ->
+  polyfit2_lin xs ys = Ok b -> exists b', polyfit2_lin xs ys' = Ok b' /\ b * k == b' * k'.
+Proof.
+  intros xs ys ys' k k' b HF H. unfold polyfit2_lin in *.
+  set (s0 := psum 0 xs) in *. set (s1 := psum 1 xs) in *. set (s2 := psum 2 xs) in *.
+  set (s3 := psum 3 xs) in *. set (s4 := psum 4 xs) in *.
+  set (d := Qred (det3 s4 s3 s2 s3 s2 s1 s2 s1 s0)) in *.
+  destruct (Qeq_bool d 0) eqn:E; [discriminate|]. apply Ok_inj in H. subst b.
+  eexists. split; [reflexivity|].
+  assert (~ d == 0) as Hd by (intros Hc; apply Qeq_bool_iff in Hc; congruence).
+  pose proof (pmom_scaled 0 xs ys ys' k k' HF) as H0.
+  pose proof (pmom_scaled 1 xs ys ys' k k' HF) as H1.
+  pose proof (pmom_scaled 2 xs ys ys' k k' HF) as H2.
+  rewrite !Qred_correct, !det3_plain.
+  set (t0 := pmom 0 xs ys) in *. set (t1 := pmom 1 xs ys) in *. set (t2 := pmom 2 xs ys) in *.
+  set (u0 := pmom 0 xs ys') in *. set (u1 := pmom 1 xs ys') in *. set (u2 := pmom 2 xs ys') in *.
+  transitivity ((s4 * ((t1 * k) * s0 - s1 * (t0 * k)) - (t2 * k) * (s3 * s0 - s1 * s2) + s2 * (s3 * (t0 * k) - (t1 * k) * s2)) / d);
+    [field; exact Hd|].
+  rewrite H0, H1, H2. field. exact Hd.
+Qed.
+
+Lemma beta2_scaled : forall pi pi' fib x v, ~ pi == 0 -> ~ pi' == 0 ->
+  beta2 pi fib x = Ok v -> exists v', beta2 pi' fib x = Ok v' /\ scaled pi pi' v v'.
+Proof.
+  intros pi pi' fib x v Hpi Hpi' H. unfold beta2 in *.
+  destruct (dispersion_at fib x) as [d|e]; cbn [bind] in *; [|discriminate]. apply Ok_inj in H. subst v.
+  eexists. split; [reflexivity|]. unfold scaled. rewrite !Qred_correct. pose proof c_light_nz. field. auto.
+Qed.
+
+Lemma beta2s_scaled : forall pi pi' fib (pts : list (Q * Q)) vs, ~ pi == 0 -> ~ pi' == 0 ->
+  mapM (fun p => beta2 pi fib (fst p)) pts = Ok vs ->
+  exists vs', mapM (fun p => beta2 pi' fib (fst p)) pts = Ok vs' /\ Forall2 (scaled pi pi') vs vs'.
+Proof.
+  intros pi pi' fib pts. induction pts as [|p t IH]; intros vs Hpi Hpi' H; cbn [mapM] in *.
+  - injection H as <-. exists []. split; [reflexivity|constructor].
+  - destruct (beta2 pi fib (fst p)) as [v|e] eqn:E; cbn [bind] in H; [|discriminate].
+    destruct (mapM (fun p0 => beta2 pi fib (fst p0)) t) as [r|e] eqn:Er; cbn [bind] in H; [|discriminate].
+    injection H as <-. destruct (beta2_scaled pi pi' fib (fst p) v Hpi Hpi' E) as [v' [E' Hs]].
+    destruct (IH r Hpi Hpi' eq_refl) as [r' [Er' HF]]. rewrite E', Er'. cbn [bind].
+    exists (v' :: r'). split; [reflexivity|constructor; assumption].
+Qed.
+
+Lemma cd_table_pi_indep : forall pi pi' fib f pts v, f_disp fib = DispPerFreq pts ->
+  ~ pi == 0 -> ~ pi' == 0 ->
+  chromatic_dispersion pi fib f = Ok v ->
+  exists v', chromatic_dispersion pi' fib f = Ok v' /\ v == v'.
+Proof.
+  intros pi pi' fib f pts v Hd Hpi Hpi' H. unfold chromatic_dispersion in *.
+  destruct (beta2 pi fib f) as [b2|e] eqn:E2; cbn [bind] in H; [|discriminate].
+  destruct (beta2_scaled pi pi' fib f b2 Hpi Hpi' E2) as [b2' [E2' Hs2]]. rewrite E2'. cbn [bind].
+  unfold beta3 in *. rewrite Hd in *.
+  destruct (mapM (fun p => beta2 pi fib (fst p)) pts) as [vs|e] eqn:Em; cbn [bind] in H; [|discriminate].
+  destruct (beta2s_scaled pi pi' fib pts vs Hpi Hpi' Em) as [vs' [Em' HF]]. rewrite Em'. cbn [bind].
+  destruct (polyfit2_lin (map (fun p => fst p - f_ref fib) pts) vs) as [b|e] eqn:Ep; cbn [bind] in H; [|discriminate].
+  destruct (polyfit_scaled _ vs vs' pi pi' b HF Ep) as [b' [Ep' Hb]]. rewrite Ep'. cbn [bind].
+  apply Ok_inj in H. subst v. eexists. split; [reflexivity|]. unfold scaled in Hs2.
+  assert (b2 == b2' * pi' / pi) as -> by (rewrite <- Hs2; field; exact Hpi).
+  assert (b == b' * pi' / pi) as -> by (rewrite <- Hb; field; exact Hpi).
+  pose proof c_light_nz. field. auto.
 Qed.
